@@ -1027,6 +1027,67 @@ def tie(ctx):
                                                   f"rejects this operand pair); on ({a}, {b}) the lowered program computes {got}, Python gives {want}",
                                                   {"source": src, "operands": [repr(a), repr(b)], "real": repr(got), "oracle": repr(want)})
                     break
+    # ---------------------------------------------------------------- (1d) the comptime front end: `C op x` / `x op C`
+    # In a `@guppy.comptime` function Python itself dispatches the operator: with a plain Python number on one side the traced
+    # Guppy value's (reflected) dunder of `DunderMixin` is called.  Each accepted probe is interpreted on the grid and compared
+    # with Python on the same operands (same oracle, guards and known-finding classes as the ordinary forms).
+    n_ct, n_ct_vals = 0, 0
+    consts = {"int": ([23, -7] if ctx.quick else [23, -7, 2, -1, 1 << 40]), "float": ([7.5] if ctx.quick else [7.5, -0.3])}
+    for op in BINOPS:
+        for T_ in ("int", "nat", "float"):
+            for ck in ("int", "float"):
+                if ck == "float" and T_ != "float":
+                    continue
+                for side in ("left", "right"):
+                    form = ("bin", op, ck, T_) if side == "left" else ("bin", op, T_, ck)
+                    rt = result_type(form)
+                    if rt is None:
+                        continue
+                    for C in consts[ck]:
+                        expr = f"({C!r}) {op} a" if side == "left" else f"a {op} ({C!r})"
+                        src = f"@guppy.comptime\ndef f(a: {T_}) -> {rt}:\n    return {expr}\n"
+                        st0, funcs0 = lower_probe(src)
+                        n_ct += 1
+                        ctx.count({"comptime": expr, "type": T_}, nontrivial=True, kind=f"comptime-form:{st0}")
+                        if st0 != "ok":
+                            continue      # which constants the comptime front end types at which kind is C21's subject
+                        ih = interp_handle(src)
+                        if ih is None:
+                            continue
+                        handles.append(ih[0])
+                        emitted = {nm for fl in funcs0.values() for nm, _s in fl}
+                        xs = G[T_]
+                        if op in ("<<", ">>") and side == "left":
+                            xs = [0, 1, 2, 5, 31, 62, 63]
+                        if op == "**" and side == "left" and T_ != "float":
+                            xs = [0, 1, 2, 3, 5, 10]
+                        if (op in ("<<", ">>") and side == "right" and not (0 <= C < 64)) or (op == "**" and side == "right" and ck == "int" and not (0 <= C <= 64)):
+                            continue
+                        bad = 0
+                        for x in xs:
+                            vals = (C, x) if side == "left" else (x, C)
+                            try:
+                                orc = oracle(form, vals)
+                            except Undefined:
+                                continue
+                            try:
+                                r = hi.run(ih[1], "f", [x], fuel=200_000)
+                            except (hi.Unsupported, hi.OutOfFuel, hi.InterpError):
+                                continue
+                            n_ct_vals += 1
+                            if r.status != "value":
+                                got = "panic"
+                            else:
+                                raw = r.raw[0]
+                                got = (("int", val_of("int", raw)) if rt == "int" else ("nat", raw) if rt == "nat" else ("float", raw) if rt == "float"
+                                       else ("bool", raw.v if isinstance(raw, hi.OBool) else raw.tag == 1))
+                            if not same(got, orc):
+                                key = classify(form, vals, got, orc, emitted) or f"input:comptime `{expr}` a: {T_} = {x!r}"
+                                bad += 1
+                                if bad <= 3 or not key.startswith("input:"):
+                                    ctx.violation(key, f"comptime function `return {expr}` with a: {T_} = {x}: the lowered program computes {got}, Python gives {orc}",
+                                                  {"source": src, "operand": repr(x), "real": repr(got), "oracle": repr(orc)})
+    ctx.extra["comptime_forms"] = {"probes": n_ct, "values_compared": n_ct_vals}
     ctx.extra["operand_pairs_outside_list_accepted"] = [f"{_fkey(f)} -> {r}" for f, r in newly]
     import feed
     for m in handles:
